@@ -181,6 +181,63 @@ def _debug_records(times, start, nd, img_dt, flt_dt):
     return problems
 
 
+def _particle_charge(times, start, nd, edit, debug):
+    """Charge written as particles by one model and edited in place by the next model of the same step (set_frame_values /
+    remove_from_frame with an id list): the charge slice of each step is what the particle list held at the end of that step - the
+    reference is computed here from the dataframe, not through Charge.array - with and without debug records."""
+    import pyxel
+    from pyxel.exposure import Exposure, Readout
+    from pyxel.pipelines import DetectionPipeline, ModelFunction
+
+    want = []
+
+    def hook(d, tag, kwargs, rec):
+        i = d.pipeline_count
+        if tag == "make":
+            n = 3
+            d.charge.add_charge(particle_type="e", particles_per_cluster=np.array([10.0 + i, 20.0, 30.0]), init_energy=np.zeros(n),
+                                init_ver_position=np.array([0.5, 1.5, 1.5]) * d.geometry.pixel_vert_size, init_hor_position=np.array([0.5, 1.5, 2.5]) * d.geometry.pixel_horz_size,
+                                init_z_position=np.zeros(n), init_ver_velocity=np.zeros(n), init_hor_velocity=np.zeros(n), init_z_velocity=np.zeros(n))
+            d.image.array = np.zeros(SHAPE, dtype="uint16")
+        elif tag == "edit":
+            ids = list(d.charge.frame.index)
+            if edit == "set_number":
+                d.charge.set_frame_values("number", [float(v) * (i + 2) for v in d.charge.frame["number"]], id_list=ids)
+            elif edit == "set_position":
+                d.charge.set_frame_values("position_hor", [0.5 * d.geometry.pixel_horz_size] * len(ids), id_list=ids)
+            elif edit == "remove_some":
+                d.charge.remove_from_frame(ids[-1:])
+        else:
+            ref = np.zeros(SHAPE)
+            fr = d.charge.frame
+            for num, pv, ph in zip(fr["number"], fr["position_ver"], fr["position_hor"]):
+                r, c = int(np.floor(pv / d.geometry.pixel_vert_size)), int(np.floor(ph / d.geometry.pixel_horz_size))
+                if 0 <= r < SHAPE[0] and 0 <= c < SHAPE[1]:
+                    ref[r, c] += float(num)
+            want.append(ref)
+
+    vxprobes.reset(hook)
+    try:
+        pipe = DetectionPipeline(charge_generation=[ModelFunction(func="vxprobes.probe", name="make", arguments={"tag": "make"}),
+                                                    ModelFunction(func="vxprobes.probe_a", name="edit", arguments={"tag": "edit"})],
+                                 data_processing=[ModelFunction(func="vxprobes.probe_b", name="snap", arguments={"tag": "snap"})])
+        dt = pyxel.run_mode(mode=Exposure(readout=Readout(times=times, start_time=start, non_destructive=nd)), detector=make_ccd(*SHAPE), pipeline=pipe,
+                            debug=debug, with_inherited_coords=True)
+    finally:
+        vxprobes.reset(None)
+    got = np.asarray(dt["/bucket/charge"]).astype(float)
+    bad = {}
+    if got.shape[0] != len(want):
+        return {"slices": [int(got.shape[0]), len(want)]}
+    for i, w in enumerate(want):
+        if not np.array_equal(got[i], w):
+            bad[f"charge[{i}]"] = {"got": got[i].tolist(), "want": w.tolist()}
+    return bad
+
+
+EDITS = ("set_number", "set_position", "remove_some")
+
+
 def _compare(dt, snaps, times, start, img_dt, inherited, photon3d):
     bad = {}
     node = dt["/bucket"] if inherited else dt
@@ -248,6 +305,12 @@ def _check_all(times, start, nd, img_dt, flt_dt, photon3d, writes, debug):
                 res["debug"][f"per_model_records/non_destructive={mode_nd}"] = rec
     if "scene" not in dt_h.children or "data" not in dt_h.children:
         res["layouts"]["scene_or_data_missing"] = sorted(dt_h.children)
+    res["particles"] = {}
+    edit = EDITS[(len(times) + IMG.index(img_dt)) % len(EDITS)]
+    for dbg in (False, True):
+        bad = _particle_charge(times, start, nd, edit, dbg)
+        if bad:
+            res["particles"][f"{edit}/debug={dbg}"] = bad
     return res
 
 
@@ -292,6 +355,7 @@ def witness(n, variant):
     vx.prove(f"C03/witness/time_labels/{lab}", not [k for k in {**res["flat"], **res["hier"]} if k.endswith("_time")])
     vx.prove(f"C03/witness/image_dtype/{lab}", "image_dtype" not in res["flat"] and "image_dtype" not in res["hier"], dtype=img_dt)
     vx.prove(f"C03/witness/layouts_agree/{lab}", not res["layouts"])
+    vx.prove(f"C03/witness/particle_charge_edited_in_place/{lab}", not res["particles"], detail=str(res["particles"])[:300])
     if debug:
         vx.prove(f"C03/witness/debug/{lab}", not res["debug"], detail=str(res["debug"])[:200])
 
